@@ -80,7 +80,7 @@ def build_tree(rng, tier):
         pool.append(m)
         return m
 
-    names = ['fc', 'fc1', 'fc2', 'conv', 'block', 'head', 'linear_in', 'l', 'Lin', 'a', 'b', 'net', 'L2']
+    names = ['fc', 'fc1', 'fc2', 'conv', 'block', 'head', 'linear_in', 'l', 'Lin', 'a', 'b', 'net', 'L2', 'module', 'module', 'fc']
 
     def container(depth, neox):
         kind = rng.choice(['seq', 'list', 'dict', 'block'])
@@ -97,7 +97,7 @@ def build_tree(rng, tier):
             return d
         b = Block()
         for k in kids:
-            b.add_module(rng.choice(names) + rng.choice(['', '1', '2', '_x']), k)
+            b.add_module(rng.choice(names) + rng.choice(['', '', '1', '2', '_x']), k)
         if rng.random() < 0.3:
             b.add_module('opt', None)
         return b
